@@ -30,10 +30,16 @@ def explore(tier, seed_, years=scenarios.YEARS, per_year=None, replays=True, sna
                 for label, chooser, req in (("file-rnd", runs.random_chooser(random.Random(k)), list(reversed(request))),
                                             ("file-rev", runs.reverse_chooser, request)):
                     tid += 1
-                    conf = runs.make_config({k2: v.replace("%", "%%") for k2, v in ans.given.items()})
+                    # the answers as the solve command writes them back (InputStore.write), re-read from that FILE
+                    wdir = common.mkwork("hv_wb_")
+                    conf = os.path.join(wdir, "written_back.habutax")
+                    solver._i.write(conf)
                     import habutax.forms as F
-                    t2, r2, _s = runs.run_traced(F.available_forms[year], conf, req, (), user=None, chooser=chooser, mode="real",
-                                                 snap=snap, tid=tid, meta={"year": year, "request": req, "label": label, "sid": sc["sid"]})
+                    try:
+                        t2, r2, _s = runs.run_traced(F.available_forms[year], conf, req, (), user=None, chooser=chooser, mode="real",
+                                                     snap=snap, tid=tid, meta={"year": year, "request": req, "label": label, "sid": sc["sid"]})
+                    finally:
+                        common.rmwork(wdir)
                     sc["variants"].append((label, t2, r2))
             out.append(sc)
     return out
